@@ -41,7 +41,7 @@ from rustlex import (Item, Tok, items_in, lex, match_close, norm, split_header_w
                      texts)
 
 REPO = os.environ.get("HVX_REPO", "/repo")
-CACHE = os.environ.get("HVX_CACHE", "/verif/build/hvx-cache")
+CACHE = os.environ.get("HVX_CACHE", os.path.join(os.environ.get("HVX_BUILD", "/verif/build"), "hvx-cache"))
 
 
 class Lost(Exception):
@@ -175,6 +175,32 @@ def expanded_crate(crate: str) -> str:
 
 
 # ------------------------------------------------------------------------------------------------
+
+
+def text_without_attrs(src: Source, toks: List[Tok]) -> str:
+    """Source text of a token range with `#[...]` attribute groups cut out (original spacing kept)."""
+    keep = strip_attrs(toks)
+    keepset = {id(t) for t in keep}
+    out = []
+    pos = toks[0].start
+    i = 0
+    while i < len(toks):
+        t = toks[i]
+        if id(t) in keepset:
+            i += 1
+            continue
+        # start of an attribute group: cut [t.start, end of group)
+        j = i
+        while j < len(toks) and id(toks[j]) not in keepset:
+            j += 1
+        out.append(src.text[pos:t.start])
+        pos = toks[j - 1].end
+        i = j
+    out.append(src.text[pos:toks[-1].end])
+    # doc comments that belonged to removed attributes / fields are harmless; strip `///` lines for Verus
+    txt = "".join(out)
+    txt = re.sub(r"^[ \t]*//[/!].*$", "", txt, flags=re.M)
+    return txt
 
 
 def find_item(src: Source, kind: str, header_sel: List[str], scope: Optional[List[Item]] = None) -> Item:
@@ -352,7 +378,7 @@ def generate(template_path: str) -> Tuple[str, List[dict]]:
             hdr = strip_attrs(it.header)
             # field attributes are dropped too
             body_toks = strip_attrs(src.toks[it.first:it.last + 1])
-            txt = " ".join(t.text for t in body_toks)
+            txt = text_without_attrs(src, src.toks[it.first:it.last + 1])
             uid += 1
             out.append(f"{indent}/*@B:{uid}*/ {txt} /*@E:{uid}*/")
             manifest.append({"uid": uid, "kind": "struct", "src": src.spec, "name": name,
@@ -410,7 +436,7 @@ def generate(template_path: str) -> Tuple[str, List[dict]]:
                 raise Lost(f"{ctx_src.spec}: assoc type {arg0} found {len(c)} times")
             tt = strip_attrs(ctx_src.toks[c[0].first:c[0].last + 1])
             uid += 1
-            out.append(f"{indent}/*@B:{uid}*/ " + " ".join(t.text for t in tt) + f" /*@E:{uid}*/")
+            out.append(f"{indent}/*@B:{uid}*/ " + text_without_attrs(ctx_src, ctx_src.toks[c[0].first:c[0].last + 1]) + f" /*@E:{uid}*/")
             manifest.append({"uid": uid, "kind": "type", "src": ctx_src.spec, "name": arg0, "tokens": texts(tt)})
             i += 1
             continue
